@@ -17,6 +17,9 @@ Definition line_scalar (l : line) : Prop := Forall tok_scalar l.
 Lemma Forall_app_i {A} (P : A -> Prop) a b : Forall P a -> Forall P b -> Forall P (a ++ b).
 Proof. intros Ha Hb. apply Forall_app. split; assumption. Qed.
 
+Lemma Done_inj {A} (a b : A) : Done a = Done b -> a = b.
+Proof. intros H. inversion H. reflexivity. Qed.
+
 (* ---------- literals ---------- *)
 
 Lemma ascii_scalar a : is_scalar (Z.of_N (N_of_ascii a)) = true.
@@ -195,7 +198,7 @@ Section Enc.
     destruct (match sl_expected_dist s with Some d => Done d | None => _ end) as [dist|w|];
       cbn [obind] in H; try discriminate.
     destruct (span_iters s) as [n|w|]; cbn [obind] in H; try discriminate.
-    injection H as <-. apply Forall_app_i; [apply path_loop_toks_scalar|].
+    apply Done_inj in H; rewrite <- H; clear H. apply Forall_app_i; [apply path_loop_toks_scalar|].
     repeat (apply Forall_cons; [solve [toks]|]). apply Forall_app_i; [apply node_sound_toks_scalar|].
     apply node_bank_toks_scalar. exact Hn.
   Qed.
@@ -211,7 +214,7 @@ Section Enc.
       - exact (slider_toks_scalar _ _ _ _ Hk Em).
       - inversion Em; subst. toks.
       - inversion Em; subst. toks. }
-    injection H as <-. repeat (apply Forall_cons; [solve [toks]|]). apply Forall_app_i; [exact Hmid|].
+    apply Done_inj in H; rewrite <- H; clear H. repeat (apply Forall_cons; [solve [toks]|]). apply Forall_app_i; [exact Hmid|].
     apply sample_bank_toks_scalar. exact Hs.
   Qed.
 
@@ -251,7 +254,7 @@ Section Enc.
       (destruct (props_redundant props _);
        [ destruct (group_lines c _ r) as [xs|w|] eqn:E
        | destruct (group_lines c props r) as [xs|w|] eqn:E ]; cbn [obind] in H; try discriminate;
-       injection H as <-;
+       apply Done_inj in H; rewrite <- H; clear H;
        repeat (apply Forall_cons; [first [apply timing_line_scalar | apply group_line_scalar]|]);
        exact (IH _ _ E)).
   Qed.
@@ -276,7 +279,7 @@ Section Enc.
     intros (Hg & Hm & He & Hc & Ho) H. unfold encode_lines in H. cbv zeta in H.
     destruct (enc_timing_points dist_of events_of m) as [tp|w|] eqn:Et; cbn [obind] in H; try discriminate.
     destruct (enc_hit_objects dist_of _ _) as [objs|w|] eqn:Eo; cbn [obind] in H; try discriminate.
-    injection H as <-.
+    apply Done_inj in H; rewrite <- H; clear H.
     pose proof (enc_timing_points_scalar _ _ Et) as Ht.
     pose proof (enc_hit_objects_scalar _ _ _ Ho Eo) as Hobjs.
     apply Forall_cons; [apply enc_version_scalar|].
